@@ -841,7 +841,13 @@ impl Gen {
                 let a = self.attrs("hr", mode, 2);
                 Tmpl::Elem("hr".into(), a, vec![])
             }
-            _ => self.raw(mode),
+            _ => {
+                if self.r.chance(1, 3) {
+                    self.noscript_elems(depth, mode)
+                } else {
+                    self.raw(mode)
+                }
+            }
         }
     }
 
@@ -877,6 +883,22 @@ impl Gen {
         };
         let a = self.attrs("svg", mode, 2);
         Tmpl::Elem("svg".into(), a, inner)
+    }
+
+    /// `<noscript>` with element children (the only non-escaping element that may contain markup): the text of
+    /// the elements below it must be escaped exactly as elsewhere, on the static and on the builder path
+    fn noscript_elems(&mut self, depth: usize, mode: Mode) -> Tmpl {
+        let mut k = vec![];
+        for _ in 0..1 + self.r.below(3) {
+            let m = self.sub_mode(mode);
+            let tag = if self.r.chance(1, 4) { self.r.pick(CUSTOM) } else if self.r.chance(1, 2) { self.r.pick(PARA) } else { self.r.pick(INLINE) };
+            let a = self.attrs(tag, m, 2);
+            let mut kk = self.kids(depth.saturating_sub(1).min(1), true, false, m, 3);
+            kk.insert(0, Tmpl::Text(self.r.pick(&["1 < 2 & 3", "a<b", "x&y", "</noscript>", "<p>t</p>", "&amp;"]).to_string(), false));
+            k.push(Tmpl::Elem(tag.into(), a, kk));
+        }
+        let a = self.attrs("noscript", mode, 1);
+        Tmpl::Elem("noscript".into(), a, k)
     }
 
     /// script / style / textarea / noscript / title with at most one string child
@@ -1047,6 +1069,21 @@ pub fn shapes(n: usize) -> Vec<Shape> {
     out.push(shape_of(vec![Tmpl::Comp(many(17))], &mut g.r));
     out.push(shape_of(vec![el("div", vec![], vec![frag(many(20))])], &mut g.r));
     out.push(shape_of(vec![el("math", vec![], vec![el("mi", vec![], vec![tx("y")]), Tmpl::Block(String::new())])], &mut g.r));
+    // 8. elements below a non-escaping parent (`<noscript>`), static vs builder path; custom elements on the builder path
+    let hp = |attrs: Vec<TAttr>, extra: Vec<Tmpl>| {
+        let mut k = vec![tx("1 < 2 & 3")];
+        k.extend(extra);
+        el("p", attrs, k)
+    };
+    out.push(shape_of(vec![el("div", vec![], vec![el("noscript", vec![], vec![hp(vec![], vec![])])])], &mut g.r));
+    out.push(shape_of(vec![el("div", vec![], vec![el("noscript", vec![], vec![hp(vec![], vec![Tmpl::Block(String::new())])])])], &mut g.r));
+    out.push(shape_of(vec![el("div", vec![], vec![el("noscript", vec![], vec![hp(vec![dynp()], vec![]), el("span", vec![], vec![tx("a<b")])])])], &mut g.r));
+    out.push(shape_of(vec![el("noscript", vec![], vec![hp(vec![idp("n")], vec![]), el("x-foo", vec![TAttr::Plain(true, "data-k".into(), String::new())], vec![tx("x&y")])])], &mut g.r));
+    out.push(shape_of(vec![el("div", vec![], vec![el("noscript", vec![idp("ns")], vec![el("div", vec![], vec![hp(vec![], vec![]), el("em", vec![dynp()], vec![tx("</noscript>")])])])])], &mut g.r));
+    out.push(shape_of(vec![el("div", vec![], vec![el("noscript", vec![], vec![Tmpl::Comp(vec![hp(vec![], vec![])]), frag(vec![hp(vec![], vec![]), el("b", vec![], vec![tx("&amp;")])])])])], &mut g.r));
+    out.push(shape_of(vec![el("div", vec![], vec![el("x-foo", vec![TAttr::Plain(true, "data-k".into(), String::new())], vec![tx("inside")]), el("p", vec![], vec![tx("after")])])], &mut g.r));
+    out.push(shape_of(vec![el("my-el2", vec![], vec![tx("count: "), Tmpl::Block(String::new())]), el("p", vec![], vec![tx("after")])], &mut g.r));
+    out.push(shape_of(vec![el("div", vec![], vec![el("x-foo", vec![TAttr::Plain(false, "foo".into(), "s".into())], vec![el("my-el2", vec![TAttr::ClsToggle("on".into(), true)], vec![tx("deep")])]), tx("after")])], &mut g.r));
     // 6. pseudo-random templates
     while out.len() < n {
         let mode = if g.r.chance(1, 4) { Mode::Static } else { Mode::Mixed };
